@@ -101,6 +101,11 @@ def check_C09(tier, seed, res, replay=None):
         A, sigma = gen.rand_nfa(rng)
         B, _ = gen.rand_nfa(rng, sigma=sigma)
         base.append(present_nfa_pair({"id": ["r", i], "A": A, "B": B, "src": "random"}, rng))
+    # the HUB family: one state with k distinct outgoing symbols (k swept across size thresholds) against one with few
+    for k in (gen.HUB_THOROUGH if tier == "thorough" else gen.HUB_QUICK):
+        for j in range(4):
+            A, B, _ = gen.hub_nfa_pair(rng, k)
+            base.append(present_nfa_pair({"id": ["hub", k, j], "A": A, "B": B, "src": "hub"}, rng))
     cases = []
     for c in base:
         r = rng.random()
@@ -257,6 +262,11 @@ def check_C10(tier, seed, res, replay=None):
         cases += c10_variants({"id": ["r", i], "A": A, "B": B, "src": "random"}, rng)
     for k in vlib.read_ndjson(os.path.join(vlib.SPEC, "killers", "faops.ndjson")):
         cases.append(dict(k, op="faop"))
+    # the HUB family: one state with k distinct outgoing symbols (k swept across size thresholds) against one with few
+    for k in (gen.HUB_THOROUGH if tier == "thorough" else gen.HUB_QUICK):
+        for j in range(6):
+            A, B, _ = gen.hub_nfa_pair(rng, k)
+            cases += [dict(d, src="hub") for d in c10_variants({"id": ["hub", k, j], "A": A, "B": B, "src": "hub"}, rng)]
     nt = lambda c: gen.nfa_nonempty(c["A"]) and ("B" not in c or gen.nfa_nonempty(c["B"]))
     res.count_cases(cases, nt)
     res.add_samples([c for c in cases if nt(c)][:3])
